@@ -1,5 +1,5 @@
 SPECIFICATION Spec
-CONSTANT Files <- MCFiles
+CONSTANT Files <- MCFilesSmall
 CONSTANT Variant = "ring4"
 CONSTANT Fracs <- FracsHalf
 INVARIANT TypeOK
